@@ -1,7 +1,10 @@
 """Operations on sequences of symbolic length (SList)."""
 import ast
 
-import z3
+try:
+    import z3
+except ImportError:      # replays run under the repository's interpreter, without z3
+    z3 = None
 
 from .path import Unsupported, PathAbort
 from .values import SInt, SBool, SStr, SOpt, SChoice, SList, Sym, Opaque, to_z3, wrap
